@@ -28,6 +28,22 @@ var implicitCoersionTable = map[types.Type][]types.Type{
 	},
 }
 
+// isLiteralOfNonStringType reports a literal (or a declared backend name) whose type is not STRING or BOOL:
+// such a value has no implicit conversion to STRING.
+func isLiteralOfNonStringType(exp ast.Expression, t types.Type, ctx *context.Context) bool {
+	if t == types.StringType || t == types.BoolType {
+		return false
+	}
+	if isLiteralExpression(exp) {
+		return true
+	}
+	if id, ok := exp.(*ast.Ident); ok && t == types.BackendType {
+		_, declared := ctx.Backends[id.Value]
+		return declared
+	}
+	return false
+}
+
 func (l *Linter) lintFunctionArguments(fn *context.BuiltinFunction, calledFn functionMeta, ctx *context.Context) types.Type {
 	// lint empty arguments
 	if len(fn.Arguments) == 0 {
@@ -98,6 +114,12 @@ func (l *Linter) lintFunctionArguments(fn *context.BuiltinFunction, calledFn fun
 			arg := l.lint(calledFn.arguments[i], ctx)
 			if t, ok := implicitCoersionTable[v]; ok {
 				if !expectType(arg, append(t, v)...) {
+					l.Error(FunctionArgumentTypeMismatch(
+						calledFn.meta, calledFn.name, i+1, v, arg,
+					).Match(FUNCTION_ARGUMENT_TYPE).Ref(fn.Reference))
+				} else if v == types.StringType && isLiteralOfNonStringType(calledFn.arguments[i], arg, ctx) {
+					// only variables are converted to STRING implicitly: a literal INTEGER, FLOAT, RTIME or
+					// a backend name is rejected at runtime ("cannot convert to string because the value is literal")
 					l.Error(FunctionArgumentTypeMismatch(
 						calledFn.meta, calledFn.name, i+1, v, arg,
 					).Match(FUNCTION_ARGUMENT_TYPE).Ref(fn.Reference))
